@@ -1,7 +1,7 @@
 (* Facts about the GENERATED tables of Params.v, all by finite computation. When /repo changes a
    table in a way that matters, one of these named lemmas stops compiling. *)
 From Coq Require Import List NArith ZArith Bool Lia.
-From Mathy Require Import Tok Params Lexer.
+From Mathy Require Import Tok Params TokSet Lexer.
 Import ListNotations.
 Open Scope N_scope.
 
@@ -71,8 +71,6 @@ Proof. intros H. apply op_kind in H. simpl in H.
   repeat (destruct H as [H|H]; [inversion H; subst; repeat split; discriminate| ]); contradiction. Qed.
 
 (* ---- token codes / parser token sets ---- *)
-Definition contains (set:N) (k:tkind) : bool := negb (N.land set (tok_code k) =? 0).
-Definition kinds_of (set:N) : list tkind := filter (contains set) all_kinds.
 
 Lemma codes_distinct_powers : map tok_code all_kinds = map (fun i => 2 ^ i) [0;1;2;3;4;5;6;7;8;9;10;11;12;13;14].
 Proof. reflexivity. Qed.
